@@ -6,6 +6,7 @@ mod c13;
 mod c15;
 mod c16;
 mod common;
+mod entry;
 mod gen;
 mod inputs;
 mod registry;
@@ -26,7 +27,7 @@ fn run_generic(mode: Mode, args: &Args, prefix: &str, rule: &str) {
 		rng: Rng::new(args.seed ^ (mode as u64) << 32),
 		thorough: args.thorough,
 		cases: {
-			let mut c = Cases::new("Require Import Scale.Bytes Scale.Hex Scale.Codec Scale.Rec Scale.CorrGen.", "gcase", "g_check");
+			let mut c = Cases::new("Require Import Scale.Bytes Scale.Hex Scale.Codec Scale.Rec Scale.RecRt Scale.CorrGen.", "gcase", "g_check");
 			if args.thorough {
 				c.max_total = 160 << 20;
 				c.max_case = 3 << 20;
@@ -38,15 +39,16 @@ fn run_generic(mode: Mode, args: &Args, prefix: &str, rule: &str) {
 		only: args.only.as_ref().map(|l| l.split('\t').map(|s| s.to_string()).collect()),
 		ntypes: 0,
 	};
-	{
-		let cx = &mut cx;
-		for_all_types!(run_type, cx);
-	}
-	// the recursive derived type (its model is Rec.rdec, not a universe type)
+	// the recursive derived type first (its model is Rec.rdec, not a universe type), so that its
+	// cases are inside the literal budget of the run
 	match cx.only.clone() {
 		None => tree::run(&mut cx),
 		Some(o) if o[0] == "Tree" => tree::replay(&mut cx, &o),
 		_ => {},
+	}
+	{
+		let cx = &mut cx;
+		for_all_types!(run_type, cx);
 	}
 	if mode == Mode::C09 && args.only.is_none() {
 		// the known finding F4, re-confirmed with a capped count: a zero-wire element type
@@ -63,6 +65,11 @@ fn run_generic(mode: Mode, args: &Args, prefix: &str, rule: &str) {
 	if mode == Mode::C18 && args.only.is_none() {
 		gen::len_cases(&mut cx);
 	}
+	let mut extra = (0usize, 0usize);
+	if mode == Mode::C07 && args.only.is_none() {
+		// the default-method graph of the Encode trait against Entry.resolve (own case type)
+		extra = entry::run(args.seed, args.thorough, &args.out, &mut cx.oracle, &mut cx.stats);
+	}
 	cx.stats.add("registry_types", cx.ntypes as u64);
 	cx.stats.add("skipped/case-too-big-for-budget", cx.cases.skipped_big as u64);
 	if args.thorough {
@@ -70,7 +77,7 @@ fn run_generic(mode: Mode, args: &Args, prefix: &str, rule: &str) {
 	}
 	cx.cases.write(&args.out, prefix, args.shards);
 	cx.oracle.write(&args.out);
-	cx.stats.write(&args.out, cx.cases.len(), cx.cases.nontrivial, cx.cases.dups, cx.oracle.checks, rule);
+	cx.stats.write(&args.out, cx.cases.len() + extra.0, cx.cases.nontrivial + extra.1, cx.cases.dups, cx.oracle.checks, rule);
 }
 
 fn main() {
